@@ -685,7 +685,8 @@ def check(ctx):
     delta = 1e-9
     eps = math.sqrt(math.log(2 / delta) / (2 * N))
     dkw_cases = ["Bernoulli(1/3)", "Bernoulli(0.9)", "Binomial(8, 0.3)", "Binomial(3, 1/2)", "Poisson(2)", "Poisson(6)", "Geometric(1/4)",
-                 "Geometric(0.6)", "UniformInt(1, 6)", "UniformInt((-10), 40)", "Exponential(2)", "Exponential(1/5)", "Uniform(0, 1)",
+                 "Geometric(0.6)", "UniformInt(1, 6)", "UniformInt((-10), 40)", "UniformInt((-3), 3)", "UniformInt((-1), 0)",
+                 "UniformInt((-6), (-3))", "Exponential(2)", "Exponential(1/5)", "Uniform(0, 1)",
                  "Uniform((-3), 7/2)", "Gaussian(0, 1)", "Gaussian(5, 1/4)"]
     if not ctx.quick():
         dkw_cases += ["Binomial(12, 0.05)", "Poisson(1)", "Geometric(0.05)", "UniformInt(0, 1)", "Uniform(1/3, 1/2)", "Gaussian((-2), 10)"]
